@@ -223,3 +223,45 @@ def value_double_exact(k: int, b: int) -> bool:
     nan = float('nan')
     return _val('lt', x, b) == (k < 2 * b) and _val('eq', x, b) == (k == 2 * b) and _val('eq', nan, b) is False \
         and _val('ne', nan, nan) is True and _val('lt', nan, b) is False
+
+
+# --- added after seeded-change review: untypedAtomic vs boolean with padded lexical forms; EBV of sequences containing nodes ----
+
+WORDS = ('true', 'false', '1', '0')
+PADS = ('', ' ', chr(9), chr(10) + ' ')
+
+
+@ob(budget=120, bound='untypedAtomic = pad + {true,false,1,0} + pad (pads from 4 XML-whitespace strings, chosen by the solver) vs boolean: all six general comparisons',
+    funcs=['elementpath/datatypes/untyped.py:UntypedAtomic._operator (boolean branch)', B + ':iter_comparison_data'])
+def general_untyped_boolean(w: int, pl: int, pr: int, b: bool) -> bool:
+    """
+    pre: 0 <= w <= 3 and 0 <= pl <= 3 and 0 <= pr <= 3
+    post: _
+    """
+    u = UntypedAtomic(PADS[pl] + WORDS[w] + PADS[pr])
+    val = WORDS[w] in ('true', '1')
+    return all(_gen(k, [u], [b]) == f(val, b) for k, f in OPS.items()) and _gen('eq', [b], [u]) == (b == val)
+
+
+from harness.common import pyet as _pyet   # noqa: E402
+_ET = _pyet()
+_DOC = _ET.ElementTree(_ET.fromstring('<r><a>1</a><b/></r>')) if hasattr(_ET, 'fromstring') else None
+T_EBVN = {k: P31.parse(v) for k, v in {
+    'atom_node': 'boolean(($x, /r))', 'node_atom': 'boolean((/r, $x))', 'and': '($x, /r/a) and true()', 'not': 'not(($x, /r/b))',
+    'if': 'if (($x, /r)) then 1 else 2', 'node_only': 'boolean(/r/b)', 'empty_path': 'boolean(/r/zz)', 'pred': '(1, 2)[($x, /r)]'}.items()}
+
+
+@ob(budget=120, bound='x: unbounded integer: EBV of (atomic, node) is FORG0006 through boolean/and/not/if/predicate; (node, atomic) and single nodes are true',
+    funcs=[B + ':boolean_value', 'fn:boolean', 'fn:not', 'and', 'if'])
+def ebv_with_nodes(x: int) -> bool:
+    """
+    post: _
+    """
+    def run(k):
+        try:
+            return L(T_EBVN[k].evaluate(XPathContext(_DOC, variables={'x': x})))
+        except ElementPathError as e:
+            return err_code(e)
+    from harness.common import L
+    return run('atom_node') == 'FORG0006' and run('and') == 'FORG0006' and run('not') == 'FORG0006' and run('if') == 'FORG0006' \
+        and run('pred') == 'FORG0006' and run('node_atom') == [True] and run('node_only') == [True] and run('empty_path') == [False]
